@@ -33,6 +33,8 @@ def rhs (ode : Nat) (p q t : Float) (y : List Float) : List Float :=
          y.map (fun v => (Float.ofNat k + 1.0) * powN t k + 0.0 * v)
   | 8 => y.map (fun v => p * Float.cos (q * t) + 0.0 * v)
   | 9 => y.map (fun v => -(p * v) + Float.sin t)
+  | 11 => y.map (fun v => p + 0.0 * v)
+  | 12 => y.map (fun v => ((q * t + p) * t + 1.0) * t + p + 0.0 * v)
   | _ => y
 
 def which (k : String) : Option (Tableau Rat) :=
@@ -64,11 +66,41 @@ def tabstep : P String := do
     let f : Float → Float → Float := fun s v => (rhs ode p q s [v]).getD 0 0.0
     pure (fout (rkStep (tabF T) f t x dt))
 
+/-- one independent block of a composite system: family id, parameters, its part of the state -/
+structure Block where
+  ode : Nat
+  p : Float
+  q : Float
+  dim : Nat
+
+def block : P (Block × List Float) := do
+  let ode ← nat; let p ← flt; let q ← flt; let x ← flts
+  pure ({ ode := ode, p := p, q := q, dim := x.length }, x)
+
+/-- right-hand side of the composite system on the concatenated state -/
+def rhsBlocks : List Block → Float → List Float → List Float
+  | [], _, _ => []
+  | b :: bs, t, y => rhs b.ode b.p b.q t (y.take b.dim) ++ rhsBlocks bs t (y.drop b.dim)
+
+/-- rk.solve E|R t0 tf minFrac maxFrac h fuel nblocks (ode p q x(list))* → the DESolver.solve loop WITH the state
+(`solveX`), constant proposal h, the iterator of the model on the flat concatenated state:
+nsteps, final time, final state -/
+def solveV : P String := do
+  let k ← tok; let t0 ← flt; let tf ← flt; let mn ← flt; let mx ← flt; let h ← flt; let fuel ← nat
+  let bl ← lst block
+  let f := rhsBlocks (bl.map Prod.fst)
+  let x0 := bl.flatMap Prod.snd
+  let iter ← (if k == "E" then pure (fun dt t x => (eulerIter listOps f dt t x).xnew)
+              else if k == "R" then pure (fun dt t x => (rk4Iter listOps f dt t x).xnew) else failure)
+  let r := solveX t0 tf mn mx (fun _ => Dt.fin h) (fun _ => false) iter x0 fuel
+  pure s!"{r.1.steps.length} {fout r.1.cur} {flist r.2}"
+
 def handle (verb : String) : Option (P String) :=
   match verb with
   | "rk.tableau" => some tableau
   | "rk.iter" => some iter
   | "rk.tabstep" => some tabstep
+  | "rk.solve" => some solveV
   | _ => none
 
 end KawinV.Drv.C06
